@@ -69,3 +69,47 @@ def explain(before: bytes, after: bytes):
         else:
             unexplained.append(f"chunk {n!r} appended with content")
     return keys, unexplained
+
+
+def unchunk(chunks) -> bytes:
+    return b"".join(n + len(p).to_bytes(4, "little") + p for n, p in chunks)
+
+
+def with_uprp_slot(b: bytes, k: int, slot: bytes) -> bytes:
+    """the map b with UPRP slot k (0-based) replaced by the 20 bytes given and UPUS[k] cleared"""
+    out = []
+    for n, p in SC.chunks_of(b):
+        if n == b"UPRP" and len(p) == 1280:
+            p = p[:20 * k] + slot + p[20 * k + 20:]
+        if n == b"UPUS" and len(p) == 64:
+            p = p[:k] + b"\0" + p[k + 1:]
+        out.append((n, p))
+    return unchunk(out)
+
+
+# UPRP slots that are non-zero ONLY in what the rich unit-property model does not hold: owner byte, reserved bits
+DROPPED_ONLY_SLOTS = {
+    "owner byte": bytes([0, 0, 0, 0, 1] + [0] * 15),
+    "reserved special-property bits": bytes([0x40, 0, 0, 0, 0] + [0] * 15),
+    "reserved unit-property bits": bytes([0, 0, 0x80, 0, 0] + [0] * 15),
+    "reserved flag bits": bytes([0] * 14 + [0x40, 0] + [0] * 4),
+}
+
+
+def explain_idempotence(first: bytes, second: bytes):
+    """key of the recorded finding that fully explains why a second cycle differs from the first, or None"""
+    ca, cb = SC.chunks_of(first), SC.chunks_of(second)
+    if len(ca) != len(cb) or any(x[0] != y[0] for x, y in zip(ca, cb)):
+        return None
+    diff = [i for i, (x, y) in enumerate(zip(ca, cb)) if x[1] != y[1]]
+    uprp = [p for n, p in ca if n == b"UPRP"]
+    if diff and all(ca[i][0] == b"UPUS" for i in diff) and uprp and len(uprp[-1]) == 1280:
+        for i in diff:
+            a, b_ = ca[i][1], cb[i][1]
+            if len(a) != 64 or len(b_) != 64:
+                return None
+            for k in range(64):
+                if a[k] != b_[k] and not (a[k] == 1 and b_[k] == 0 and not any(uprp[-1][20 * k:20 * k + 20])):
+                    return None
+        return "uprp-slot-dropped-fields-only"
+    return None
